@@ -24,7 +24,7 @@ CONSTANTS PwdParts, PackParts,   \* a key is <<p, q>> (NTAG21x: p = PWD, q = PAC
           Defects,               \* subset of DefectNames
           AdvKinds,              \* subset of {"flipdata", "flipmac", "swap", "replay", "pad"}
           InitP, InitQ,          \* the card key at the start is in InitP \X InitQ
-          InitBlk                \* "all": every block content; "two": all blocks different / all equal
+          InitBlk                \* "all": every block content; "two": all different / all equal; "distinct"
 
 DefectNames == {"lites_none_subscript", "lites_protect_encode", "ndef_none_subscript"}
 ASSUME Defects \subseteq DefectNames
@@ -67,11 +67,13 @@ vars == <<tag, rd, pc, op, resp, orig, tamp, rep, hist, nadv, nops, nchal, last,
 
 NoOp   == [name |-> "none", pw |-> NoPw, bs |-> <<>>, b |-> "-", v |-> "-", outer |-> "none", rc |-> 0]
 NoLast == [op |-> "none", kind |-> "-", pw |-> NoPw, res |-> "-", d |-> <<>>, tamp |-> FALSE, rep |-> FALSE,
-           ck |-> Factory, gen |-> <<>>, sk |-> <<Factory, 0>>, iv |-> 0, trc |-> 0]
+           ck |-> Factory, gen |-> <<>>, sk |-> <<Factory, 0>>, iv |-> 0, trc |-> 0, tsk |-> <<Factory, 0>>]
 
-TagInit(kind, ck, blk, locked, keychg) ==
-    [kind |-> kind, ck |-> ck, rc |-> 0, wcnt |-> 0, ext |-> FALSE, blk |-> blk,
-     locked |-> locked, keychg |-> keychg, nauth |-> FALSE]
+\* sk: the session key the card derived when RC was last written (it keeps it until the next RC write);
+\* id1: the first byte of the ID block is 01h (IDm of Sony chips starts with manufacturer code 01h)
+TagInit(kind, ck, blk, locked, keychg, id1) ==
+    [kind |-> kind, ck |-> ck, rc |-> 0, sk |-> <<ck, 0>>, wcnt |-> 0, ext |-> FALSE, blk |-> blk,
+     locked |-> locked, keychg |-> keychg, nauth |-> FALSE, id1 |-> id1]
 RdInit == [has |-> FALSE, sk |-> <<Factory, 0>>, iv |-> 0, auth |-> FALSE]
 
 InitWith(t) ==
@@ -80,13 +82,15 @@ InitWith(t) ==
     /\ last = NoLast /\ prot = [set |-> FALSE, k |-> Factory]
 
 InitBlks == IF InitBlk = "all" THEN [Blocks -> Vals]
+            ELSE IF InitBlk = "distinct" THEN {CHOOSE f \in [Blocks -> Vals] : \A a, b \in Blocks : a # b => f[a] # f[b]}
             ELSE {CHOOSE f \in [Blocks -> Vals] : \A a, b \in Blocks : a # b => f[a] # f[b],
                   CHOOSE f \in [Blocks -> Vals] : \A a, b \in Blocks : f[a] = f[b]}
-Init == \E kind \in Kinds, ck \in InitP \X InitQ, blk \in InitBlks, locked \in BOOLEAN :
-            InitWith(TagInit(kind, ck, [b \in Blocks |-> DV(blk[b])], locked, FALSE))
+Init == \E kind \in Kinds, ck \in InitP \X InitQ, blk \in InitBlks, locked \in BOOLEAN, id1 \in BOOLEAN :
+            /\ (kind # "lites" => ~id1)         \* only FelicaLiteS.authenticate looks at a block's first byte
+            /\ InitWith(TagInit(kind, ck, [b \in Blocks |-> DV(blk[b])], locked, FALSE, id1))
 
 Felica == tag.kind \in {"lite", "lites"}
-TagSK  == <<tag.ck, tag.rc>>
+TagSK  == tag.sk
 
 \* ---- control helpers ------------------------------------------------------------------------
 Goto(p) == pc' = p /\ resp' = NoResp /\ orig' = NoResp /\ UNCHANGED <<last, nops>>
@@ -94,7 +98,7 @@ Answer(p, r) == pc' = p /\ resp' = r /\ orig' = r /\ UNCHANGED <<last, nops>>
 Finish(res, d, tg, r, tm) ==
     /\ pc' = "idle" /\ resp' = NoResp /\ orig' = NoResp /\ nops' = nops + 1
     /\ last' = [op |-> op.name, kind |-> tag.kind, pw |-> op.pw, res |-> res, d |-> d, tamp |-> tm,
-                rep |-> rep, ck |-> tg.ck, gen |-> orig.d, sk |-> r.sk, iv |-> r.iv, trc |-> tg.rc]
+                rep |-> rep, ck |-> tg.ck, gen |-> orig.d, sk |-> r.sk, iv |-> r.iv, trc |-> tg.rc, tsk |-> tg.sk]
 Idle == pc = "idle" /\ nops < MaxOps
 Begin(o) == op' = o /\ tamp' = FALSE /\ rep' = FALSE
             /\ UNCHANGED <<tag, hist, nadv, nchal, prot>>
@@ -111,7 +115,7 @@ StartAuth(pw) ==
 AWriteRC ==
     /\ pc = "a_wrc"
     /\ nchal' = nchal + 1
-    /\ tag' = [tag EXCEPT !.rc = nchal + 1, !.ext = FALSE]
+    /\ tag' = [tag EXCEPT !.rc = nchal + 1, !.sk = <<tag.ck, nchal + 1>>, !.ext = FALSE]
     /\ op' = [op EXCEPT !.rc = nchal + 1]
     /\ Goto("a_rid")
     /\ UNCHANGED <<rd, tamp, rep, hist, nadv, prot>>
@@ -177,11 +181,14 @@ SReadState ==
 \* the reader's MAC verification of a read_with_mac response                (tt3_sony.py:727-731)
 RdMacOk == resp.hm /\ resp.m = MacOf(rd.sk, rd.iv, resp.d)
 
-\* `if self.read_with_mac(0x92)[0] == 0x01`: a failed MAC check makes read_with_mac return None
+\* `if self.read_with_mac(0x92)[0] == 0x01`: only the first byte of the verified block is looked at, and the
+\* MAC does not cover block numbers: the ID block of the same session passes when it starts with 01h.
+First1(v) == v.f = 0 /\ (v.v = "ext1" \/ (v.v = "id" /\ tag.id1))
+\* a failed MAC check makes read_with_mac return None
 SChk(out) ==
     /\ pc = "s_chk"
     /\ LET tm == tamp \/ resp # orig
-           good == RdMacOk /\ resp.d[1] = ExtVal(TRUE)
+           good == RdMacOk /\ First1(resp.d[1])
            r1 == [rd EXCEPT !.auth = good] IN
          /\ tamp' = tm /\ rd' = r1
          /\ IF ~RdMacOk /\ "lites_none_subscript" \in Defects /\ out = "TypeError"
@@ -351,9 +358,11 @@ Typed == {"True", "False", "None", "Data", "TagCommandError", "-"}
 KeyEq(l) == Kdf(l.pw) = l.ck
 
 ResultTypedP(l)  == l.res \in Typed
-\* True only if the tag holds the key and nothing was modified.  NTAG21x sends PWD and PACK in the
-\* clear, so a replayed PACK fools the reader by design: excluded (witness W_NtagReplayFools).
-AuthSoundP(l)    == (l.op = "auth" /\ l.res = "True" /\ ~(l.kind = "ntag" /\ l.rep)) => (KeyEq(l) /\ ~l.tamp)
+\* True only if the tag holds the key (FeliCa: whatever the adversary does) and, unless old responses were
+\* replayed, nothing was modified.  Replay limits, exhibited as witnesses: NTAG21x sends PWD and PACK in the
+\* clear (W_NtagReplayFools); the Lite MAC does not cover block numbers, so the ID block of the same session
+\* can stand in for the STATE block of the mutual authentication (W_MutualReplayFools).
+AuthSoundP(l)    == (l.op = "auth" /\ l.res = "True" /\ ~(l.kind = "ntag" /\ l.rep)) => (KeyEq(l) /\ (l.rep \/ ~l.tamp))
 AuthCompleteP(l) == (l.op = "auth" /\ KeyEq(l) /\ ~l.tamp) => l.res = "True"
 \* after a successful protect(pw) the tag holds Kdf(pw); with Sound/Complete: authenticate(q) is True
 \* exactly for the passwords with Kdf(q) = Kdf(pw)
@@ -366,7 +375,7 @@ IsRead(l) == l.op \in {"read", "ndef"}
 MacReadFreshP(l) == (IsRead(l) /\ l.res = "Data" /\ ~l.rep) => l.d = l.gen
 \* ... and even with replays only data the tag itself authenticated in the reader's session
 MacReadAuthenticP(l, h) == (IsRead(l) /\ l.res = "Data") => MacResp(l.d, MacOf(l.sk, l.iv, l.d)) \in h
-MacReadCompleteP(l) == (IsRead(l) /\ ~l.tamp /\ l.sk = <<l.ck, l.trc>> /\ l.iv = l.trc) => (l.res = "Data" /\ l.d = l.gen)
+MacReadCompleteP(l) == (IsRead(l) /\ ~l.tamp /\ l.sk = l.tsk /\ l.iv = l.trc) => (l.res = "Data" /\ l.d = l.gen)
 
 ResultTyped     == ResultTypedP(last)
 AuthSound       == AuthSoundP(last)
@@ -402,6 +411,7 @@ W_WriteOk         == ~(last.op = "write" /\ last.res = "None")
 W_WriteRefused    == ~(last.op = "write" /\ last.res = "TagCommandError")
 \* documented protocol limits that the model exhibits (they bound what the invariants may claim)
 W_ReplayStale     == ~(last.op = "read" /\ last.res = "Data" /\ last.rep /\ last.d # last.gen)
+W_MutualReplayFools == ~(last.op = "auth" /\ last.res = "True" /\ last.kind = "lites" /\ last.tamp)
 W_NtagReplayFools == ~(last.op = "auth" /\ last.res = "True" /\ last.kind = "ntag" /\ ~KeyEq(last))
 \* the defects of the code as it is (reached only with Defects # {})
 W_TypeError       == ~(last.res = "TypeError")
